@@ -141,10 +141,13 @@ def concrete_playback_batch(crate_dir, harnesses, prop, env_extra=None, extra=No
     tests = {}  # harness -> [(testname, check, text)]
     for m in re.finditer(r"Concrete playback unit test for `([^`]+)`:\s*\n```\n(.*?)\n```", out, re.S):
         h, text = m.group(1), m.group(2)
-        mm = re.search(r"/// Check for `(\w+)`: \"(.*?)\"\s*\n", text)
-        kind, desc = (mm.group(1), mm.group(2)) if mm else ("?", "?")
+        mm = re.search(r"Check for `(\w+)`: \"(.*)", text)
+        kind, desc = (mm.group(1), mm.group(2).strip().rstrip('"')[:200]) if mm else ("?", "?")
         if kind == "cover":
             continue
+        # the doc comment may span several lines (multi-line assertion text): keep only the test itself
+        if "#[test]" in text:
+            text = "/// Kani concrete playback for `%s` (check: %s)\n" % (h, desc.replace("\n", " ")) + text[text.index("#[test]"):]
         tn = re.search(r"fn (kani_concrete_playback_\w+)\(\)", text).group(1)
         fn = h.split("::")[-1]
         text = re.sub(r"concrete_playback_run\(concrete_vals, %s\)" % re.escape(fn),
